@@ -85,6 +85,7 @@ def step (s : St) (line : String) : St × String :=
   | ["via", o, a, p] => match o.toNat?, Hex.decodeText a, p.toNat? with | some o, some a, some p => run1 s (.via o a p) | _, _, _ => (s, "bad-op")
   | ["vialost", a, p] => match Hex.decodeText a, p.toNat? with | some a, some p => run1 s (.viaLost a p) | _, _ => (s, "bad-op")
   | ["amap", n, a] => match Hex.decodeText n, Hex.decodeText a with | some n, some a => run1 s (.addrMap n a) | _, _ => (s, "bad-op")
+  | ["ncons"] => run1 s .newConsensus
   | ["dump"] => (s, dump s)
   | _ => (s, "bad-op")
 
